@@ -60,6 +60,21 @@ add('C11', "PegSem places the keyword check of @name rules after the body and be
     "a 13-keyword table and quoted keywords; replayed into model and generated parser with and without a tagging action.",
     "Trusted: TLC, projections.", "TLA+ spec PegSem (IsKeyword before Act) evaluated by TLC, exhaustive family universe, replay", "5 C11")
 
+add('C12', "(a) spec/LinePos.tla: TLC enumerates every text over {letter, space, LF, CR} up to the bound, checks the laws of the line table and prints "
+    "(line, column, line text) for every offset 0..len; each entry is replayed into TextLinesCursor and BufferCursor (lineinfo, lineat, poscol). "
+    "(b) PegSem attaches (rule, start after leading whitespace, end) of every rule that returned it to each dict-like value; TLC evaluates it on "
+    "named-rule grammars (nested, aliases, token rules, lists, memo hits, left recursion) x texts with line breaks; the parseinfo of every dict AST "
+    "of the real parse must be one of those triples with line = LinePos line of the start offset.",
+    "Trusted: TLC, projections. End-of-text offset findings are listed as KF-C12-1. parseinfo.endline is not part of the claim.",
+    "TLA+ specs LinePos (exhaustive table) and PegSem (parse information) evaluated by TLC + replay", "5 C12")
+add('C18', "spec/ParProc.tla (one action per step of executor_pmap, environment action Complete(t) = the schedule) is checked exhaustively by TLC: "
+    "every completion order x every raising subset, NT<=5(6), windows 2-4, modes window/all/seq/single; invariants NoDup, NoLoss, ExactlyOnce, "
+    "SameAsSequential, WindowBound, CapturedNeverBlocks and liveness Finishes. The dumped state graphs are covered edge by edge with behaviours "
+    "that are replayed through the real executor_pmap (non-forking ProcessPoolExecutor subclass, scheduled as_completed), comparing submitted set, "
+    "as_completed snapshot, yielded result and captured exception after every step; parproc() is run with real pools in all modes, also after an interrupted run.",
+    "Trusted: TLC, the deterministic executor (task functions run synchronously at Complete(t)). Worker-process crashes and KeyboardInterrupt inside the parallel loop are not modelled.",
+    "TLA+ spec ParProc model-checked by TLC (safety + liveness) + state-graph behaviours replayed into the real loop", "5 C18, 3.7")
+
 import sys
 checks = [C[p] for p in props if p in C]
 na = [{"property_id": p, "reason": "check not built yet in this round (build in progress; DESIGN.md section 10 gives the order)"} for p in props if p not in C]
